@@ -1,14 +1,12 @@
-"""Per-property configuration of bin/check: which Coq file holds the theorems and which
-harness units (Go side `drv`, Coq side `coq` = module with case/check_case/model_obs) tie
-the model to the code."""
-
-PROPS = {
-    "C08": {
-        "units": [
-            {"drv": "varint", "coq": "V.Wire.VarintRun", "n_quick": 400, "n_thorough": 5000, "shard": 3000},
-        ],
-        "level_text": "Theorems over the Gallina codec models (varint first; frames and headers as they land): encode->parse identity with exact consumed length and |encode| = Len for every value < 2^62 and every trailing input; tied to the code by replaying harness-generated encode and parse cases (boundary values, random byte strings, all 1-2 byte inputs in the thorough tier) through the model.",
-        "level_note": "Proved about the model, not about Go: Go panics/out-of-bounds are only observed through recover() in the harness; codecs not yet modelled are covered by Go-side round-trip monitors only.",
-        "assumptions": ["Go memory safety (panics, out-of-bounds) is observed by recover() in the harness, not proved"],
-    },
-}
+"""Per-property configuration of bin/check, one JSON file per property in bin/registry.d/:
+  units:       correspondence units: drv = harness unit name (verifdrv <drv> <seed> <n>),
+               coq = Coq module with `case`, `check_case`, `model_obs` (omit for monitor-only units),
+               n_quick / n_thorough = case counts, shard = cases per vm_compute file, args = extra argv
+  level_text, level_note, technique, assumptions, trusted, rule: copied into MANIFEST / evidence
+  disabled + na_reason: listed under not_applicable instead of claimed
+"""
+import json, os, glob
+D = os.path.join(os.path.dirname(os.path.abspath(__file__)), "registry.d")
+PROPS = {}
+for f in sorted(glob.glob(os.path.join(D, "C*.json"))):
+    PROPS[os.path.basename(f)[:-5]] = json.load(open(f))
